@@ -1,6 +1,7 @@
 package exif2
 
 import (
+	"bufio"
 	"sync"
 
 	"github.com/rs/zerolog"
@@ -119,6 +120,10 @@ func (ir *ifdReader) discard(n int) (err error) {
 	}
 	if int(ir.exifLength) < n+int(ir.po) {
 		n = int(ir.exifLength) - int(ir.po)
+	}
+	if n < 0 {
+		// the target lies behind the reader position; a forward-only reader cannot reach it
+		return bufio.ErrNegativeCount
 	}
 	if br, ok := ir.reader.(BufferedReader); ok {
 		n, err = br.Discard(n)
